@@ -16,7 +16,7 @@ THOROUGH = QUICK + [(1, 4, 3), (2, 4, 2), (2, 3, 3), (3, 3, 3), (3, 4, 2), (4, 3
 def describe(tier):
     cfg = QUICK if tier == "quick" else THOROUGH
     return {
-        "rule": "for each (D dims, N rows, E categories) in %r: every data vector over {0..E-1} per dimension and every common value in 0..E per "
+        "rule": "long family: N=18(24) rows, one dimension holding a contiguous run of 8..10(17) rows of one category and another with 1-2 sparse rows, both orders and a 3-dimension variant; and for each (D dims, N rows, E categories) in %r: every data vector over {0..E-1} per dimension and every common value in 0..E per "
         "dimension (E = absent); the log of (coords, rows) delivered to interactions() and to two callbacks of walk([f, g]) must equal, as a multiset, "
         "{(c, rows(c)) : c in prod(uncommon_d u {-1}) minus all -1, rows(c) non-empty}; each row array strictly increasing uint32. "
         "Non-trivial: D >= 2 and at least one expected combination mixing a marginal and an uncommon coordinate. Distinct = distinct (data, commons)." % (cfg,),
@@ -34,9 +34,25 @@ def dim_opts(N, E):
     return out
 
 
+LONG_N = {"quick": 18, "thorough": 24}
+LONG_LENS = {"quick": [8, 9, 10], "thorough": [8, 9, 10, 16, 17]}
+
+
+def long_cases(tier):
+    """Two one-axis dimensions over N rows: one holds a long contiguous run of a category, the other 1-2 sparse rows
+    (the shape a block-skipping intersection is written for); both orders."""
+    N = LONG_N[tier]
+    out = []
+    for ln in LONG_LENS[tier]:
+        for a in range(0, N - ln + 1):
+            run = tuple(1 if a <= r < a + ln else 0 for r in range(N))
+            out.append(run)
+    return out
+
+
 def blocks(tier):
     cfg = QUICK if tier == "quick" else THOROUGH
-    out = []
+    out = [("long", {"tier": tier, "i": i}) for i in range(len(long_cases(tier)))]
     for D, N, E in cfg:
         n0 = len(dim_opts(N, E))
         rest = n0 ** (D - 1)
@@ -94,6 +110,18 @@ def check(datas, commons, acc, case):
 
 
 def run_block(family, p, acc):
+    if family == "long":
+        tier = p["tier"]
+        N = LONG_N[tier]
+        run = long_cases(tier)[p["i"]]
+        for k in (1, 2):
+            for rows in itertools.combinations(range(N), k):
+                probe = tuple(1 if r in rows else 0 for r in range(N))
+                for datas, commons in (([run, probe], [0, 0]), ([probe, run], [0, 0]), ([run, probe], [2, 0]), ([probe, run, probe], [0, 2, 0])):
+                    case = {"data": [list(t) for t in datas], "commons": commons}
+                    exp = check(datas, commons, acc, case)
+                    acc.case((tuple(datas), tuple(commons)), nontrivial=True, outcome=("long", len(exp)), sample=case)
+        return
     D, N, E = p["D"], p["N"], p["E"]
     opts = dim_opts(N, E)
     for combo in itertools.product(opts[p["a0"]:p["a1"]], *([opts] * (D - 1))):
